@@ -5,6 +5,7 @@ import importlib.util
 import importlib.machinery
 
 import io
+import re
 import json
 import logging
 import os
@@ -279,15 +280,16 @@ def main():
             stdin_buffer = sys.stdin.buffer  # pylint: disable=no-member,useless-suppression
             stdin_text = io.TextIOWrapper(stdin_buffer, encoding='utf-8').read()
 
-            parts = stdin_text.split('namespace')
+            # A new spec starts at each line that begins with the namespace
+            # keyword (not at every occurrence of the substring, which also
+            # appears in identifiers, docs and comments).
+            parts = re.split(r'(?m)^(?=namespace\b)', stdin_text)
             if len(parts) == 1:
                 specs.append(('stdin.1', parts[0]))
             else:
-                specs.append(
-                    ('stdin.1', '{}namespace{}'.format(parts.pop(0), parts.pop(0))))
+                specs.append(('stdin.1', parts.pop(0) + parts.pop(0)))
                 while parts:
-                    specs.append(('stdin.%s' % (len(specs) + 1),
-                                  'namespace%s' % parts.pop(0)))
+                    specs.append(('stdin.%s' % (len(specs) + 1), parts.pop(0)))
 
         if args.filter_by_route_attr:
             route_filter, route_filter_errors = parse_route_attr_filter(
